@@ -267,17 +267,27 @@ where
 
             // Start a multi-block write
             self.card_command(CMD25, start_idx)?;
+            let mut result = Ok(());
             for block in blocks.iter() {
-                self.wait_not_busy(Delay::new_write())?;
-                self.write_data(WRITE_MULTIPLE_TOKEN, &block.contents)?;
+                result = self
+                    .wait_not_busy(Delay::new_write())
+                    .and_then(|_| self.write_data(WRITE_MULTIPLE_TOKEN, &block.contents));
+                if result.is_err() {
+                    break;
+                }
             }
-            // Stop the write
-            self.wait_not_busy(Delay::new_write())?;
-            self.write_byte(STOP_TRAN_TOKEN)?;
-            // The card is now programming the last block. Wait for it here, with
-            // the write timeout: the next command would only wait for the
-            // (shorter) command timeout.
-            self.wait_not_busy(Delay::new_write())?;
+            // Stop the write - also when a block was refused: the card is still
+            // waiting for data blocks and would take the next command frame
+            // for one.
+            let stopped = self
+                .wait_not_busy(Delay::new_write())
+                .and_then(|_| self.write_byte(STOP_TRAN_TOKEN))
+                // The card is now programming the last block. Wait for it here,
+                // with the write timeout: the next command would only wait for
+                // the (shorter) command timeout.
+                .and_then(|_| self.wait_not_busy(Delay::new_write()));
+            result?;
+            stopped?;
         }
         Ok(())
     }
